@@ -146,7 +146,7 @@ def run(ctx) -> Result:
     loop.run_until_complete(conn.message_broker.queue_declare("default"))
     for _ in range(n // 3 + 8):
         ts = rng.randrange(-10**12, 10**12)
-        ttl = rng.choice([None, S, 2 * S, 3600 * S, rng.randrange(S, 10**13)])
+        ttl = rng.choice([None, S, 2 * S, 3600 * S, rng.randrange(S, 10**13), 0, 1])
         for off in (-1, 0, 1, rng.randrange(-10**7, 10**7)):
             now = ts + (ttl or 0) + off
             objs = {
@@ -162,7 +162,9 @@ def run(ctx) -> Result:
                 ask("pred", case, sx([A("c19.overdueOk"), now, ts, opt(ttl), bool(b)]), "true")
                 res.dist["overdue:" + cls] += 1
                 res.note(("o", cls, ts, ttl, now))
-            # Job.timestamp is taken at construction
+            # Job.timestamp is taken at construction (Job refuses a time-to-live below one second)
+            if ttl is not None and ttl < S:
+                continue
             CLOCK.reset(ts)
             job = Job("some_job", ttl=us_td(ttl), _connection=conn)
             CLOCK.reset(now)
